@@ -2,8 +2,11 @@
 (* B2/B3 for C35.  A log recorded from the REAL recorder is read line by line:
 
      start   a fresh recorder with the logged batch size
-     step    one gate passage (process, label, table) — exactly one action of
-             Recorder.tla (LockScope "code"); an "ins" step carries the entry
+     step    one gate passage (process, label, table) — exactly one gate action of
+             Recorder.tla (LockScope "fix"); an "ins" step carries the entry; "call" is the
+             harness's own gate in front of Flush()/Close().  Taking the mutex is not
+             logged: it is a silent step of the model, taken as soon as it is enabled
+             (a logged step needs Quiet), in whichever order the waiters got it
      panic   the goroutine of process p panicked inside the recorder
      end     the run is over: either it crashed, or Close returned and the SQLite
              file was read back: rows[t] = <<id, location id>> in rowid order,
@@ -15,9 +18,11 @@
      conf       (Impl = TRUE, gated runs) every logged step was enabled in the model
                 and the model's database equals the real one row for row — the
                 implementation-shaped model explains what the real code did.
-   A log that leaves the model does not stop the validation: the run is marked
-   diverged (the fixed tree, or a mutated one, is allowed to differ from the model of
-   the pinned code) and only `persisted` is judged.  With Impl = FALSE (free-running
+   Which waiter got the mutex is the Go runtime's choice, so TLC follows every order:
+   a run can end in several branches, each prints its CASE line, and the run conforms
+   when one of them does.  A log that leaves the model does not stop the validation:
+   the branch is marked diverged (a regressed or mutated tree is allowed to differ from
+   the model) and only `persisted` is judged.  With Impl = FALSE (free-running
    goroutines; only InsertData calls are logged) the model is not stepped.            *)
 EXTENDS Recorder, TraceCommon
 CONSTANT Impl
@@ -32,39 +37,44 @@ Seen == inserted' = (IF Ev.l = "ins" THEN inserted \cup {Entry} ELSE inserted)
 Guard(p, lab, tb) ==
     /\ p \in Procs
     /\ CASE lab = "ins" -> pc[p] = "idle" /\ tb \in Tables /\ Ev.loc \in Locs
-         [] lab = "fl_check" -> pc[p] \in {"idle", "fl_check"}
-         [] lab = "fl_table" -> pc[p] = "fl_table" /\ tb \in todo[p]
-         [] OTHER -> lab \in FlushLabels /\ pc[p] = lab
+         [] lab = "call" -> pc[p] = "idle"
+         [] lab = "fl_table" -> pc[p] = "fl_table" /\ mu = p /\ tb \in todo[p]
+         [] OTHER -> lab \in FlushLabels \cup {"fl_check"} /\ pc[p] = lab /\ mu = p
 
 TStart == /\ Ev.e = "start" /\ MReset(Ev.batch) /\ inserted' = {} /\ div' = FALSE
-          /\ UNCHANGED <<left, racy, hist>>
-TStep  == /\ Ev.e = "step" /\ Impl /\ ~div /\ Guard(Ev.p, Ev.l, Ev.tab)
-          /\ \/ Ev.l = "ins" /\ Ins(Ev.p, Entry)
+          /\ UNCHANGED <<left, racy, sig, hist>>
+TStep  == /\ Ev.e = "step" /\ Impl /\ ~div /\ Quiet /\ Guard(Ev.p, Ev.l, Ev.tab)
+          /\ \/ Ev.l = "ins" /\ RelIns(Ev.p, Entry)
+             \/ Ev.l = "call" /\ Call(Ev.p)
              \/ Ev.l = "fl_check" /\ FlCheck(Ev.p)
              \/ FlushStep(Ev.p, Ev.l, Ev.tab)
-          /\ Seen /\ UNCHANGED <<left, racy, hist, div>>
-TLeave == /\ Ev.e = "step" /\ Impl /\ ~div /\ ~Guard(Ev.p, Ev.l, Ev.tab)
-          /\ div' = TRUE /\ Seen /\ UNCHANGED <<mvars, left, racy, hist>>
+          /\ Seen /\ UNCHANGED <<left, racy, sig, hist, div>>
+TLeave == /\ Ev.e = "step" /\ Impl /\ ~div /\ Quiet /\ ~Guard(Ev.p, Ev.l, Ev.tab)
+          /\ div' = TRUE /\ Seen /\ UNCHANGED <<mvars, left, racy, sig, hist>>
 TSkip  == /\ Ev.e = "step" /\ (div \/ ~Impl)
-          /\ Seen /\ UNCHANGED <<mvars, left, racy, hist, div>>
+          /\ Seen /\ UNCHANGED <<mvars, left, racy, sig, hist, div>>
 TPanic == /\ Ev.e = "panic" /\ div' = (div \/ (Impl /\ crashed # Ev.p))
           /\ UNCHANGED vars
 SameDB == /\ \A t \in Tables : dbRows[t] = Ev.rows[t]
           /\ dbLoc = Ev.locs
-TEnd   == /\ Ev.e = "end"
+TEnd   == /\ Ev.e = "end" /\ (div \/ ~Impl \/ Quiet)
           /\ LET conf == /\ Impl /\ ~div
                          /\ IF Ev.crashed THEN crashed # "none"
                                           ELSE crashed = "none" /\ pc[Closer] = "closed" /\ SameDB
                  pers == ~Ev.crashed /\ Abs!Stored(inserted, Tables, Ev.rows, Ev.locs)
                  miss == IF Ev.crashed THEN {} ELSE Abs!Missing(inserted, Tables, Ev.rows)
                  dupl == IF Ev.crashed THEN {} ELSE Abs!Duplicated(inserted, Tables, Ev.rows)
-                 held == IF Impl /\ ~div /\ crashed = "none" THEN Unflushed ELSE {}
              IN PrintT(<<"CASE", ToJson([run |-> Ev.run, conf |-> conf, persisted |-> pers, n |-> Cardinality(inserted),
-                                         missing |-> miss, duplicated |-> dupl, unflushed |-> held])>>)
+                                         missing |-> miss, duplicated |-> dupl])>>)
           /\ UNCHANGED <<vars, div>>
-TNext == l <= TraceLen /\ l' = l + 1 /\ (TStart \/ TStep \/ TLeave \/ TSkip \/ TPanic \/ TEnd)
+(* a waiter takes the free mutex: not logged, position unchanged *)
+TSilent == /\ Impl /\ ~div /\ l <= TraceLen /\ Ev.e # "start"
+           /\ \E p \in Procs : AcqIns(p) \/ AcqFl(p)
+           /\ UNCHANGED <<left, inserted, racy, sig, hist, l, div>>
+TNext == \/ l <= TraceLen /\ l' = l + 1 /\ (TStart \/ TStep \/ TLeave \/ TSkip \/ TPanic \/ TEnd)
+         \/ TSilent
 TSpec == TInit /\ [][TNext]_tvars
 Mark == TraceMark(l)
 (* while a run conforms, the model's own invariants are evaluated on the real run *)
-ModelInv == (Impl /\ ~div) => (TypeOK /\ NeverTwice /\ LocInternOK /\ TxnOwner)
+ModelInv == (Impl /\ ~div) => (TypeOK /\ NeverTwice /\ LocInternOK /\ TxnOwner /\ FlushHoldsLock)
 =============================================================================
